@@ -286,19 +286,49 @@ def run(chk):
         pv = bytesview.prefix_view(t)
         if pv is None or pv[0] != (PKT, start, None):
             return False
-        m = normal.min_of(N.norm(pv[1]))
-        return m is not None and ("const", cap) in m and any(len_pred(x) for x in m if x != ("const", cap))
+        e = N.norm(pv[1])
+        m = normal.min_of(e)
+        if m is not None:
+            return ("const", cap) in m and any(len_pred(x) for x in m if x != ("const", cap))
+        # the same amount written case by case: `if received < total { (total - received).min(cap) } else { 0 }`
+        okc, n_pos = True, 0
+        for cs, v in normal.cases_deep(e):
+            mv = normal.min_of(v)
+            if mv is not None and ("const", cap) in mv and any(len_pred(x, cs) for x in mv if x != ("const", cap)):
+                n_pos += 1
+            elif v == ("const", 0) and cs:
+                pass
+            else:
+                okc = False
+        return okc and n_pos >= 1
     oki = bool(msgs)
     for bb, i, rv in msgs:
         alts = site_alts(bb)
         pay = fld(bb, i, rv, "payload")
-        oki = oki and bool(alts) and all(share(under(pay, alt), 7, 57, lambda x: bdec(x) == ("be", (PKT, 5, 7))) for alt in alts)
+        oki = oki and bool(alts) and all(share(under(pay, alt), 7, 57, lambda x, cs=None: bdec(x) == ("be", (PKT, 5, 7))) for alt in alts)
     exts = [(bb, t) for bb, t in HP.calls() if names.call_is(t, "Vec::extend_from_slice", "Extend::extend", "Vec::extend")]
     oke = bool(exts)
     for bb, t in exts:
         alts = site_alts(bb)
         a_ = N.norm(Tv.operand(t["args"][1], bb, "t"))
-        remaining = lambda x: (is_call(x, "usize::saturating_sub") or (isinstance(x, tuple) and x[:1] == ("binop",) and x[1].startswith("Sub"))) and has(x, lambda y: isinstance(y, tuple) and len(y) == 3 and y[0] == "field" and y[2] == "payload_len") and has(x, lambda y: is_call(y, "Vec::len"))
+        def remaining(x, cs=None):
+            """declared length minus what was received so far — saturating, or a plain subtraction under the test received < total"""
+            if isinstance(x, tuple) and len(x) == 3 and x[0] == "field" and x[2] == "0":
+                x = x[1]
+            mentions = has(x, lambda y: isinstance(y, tuple) and len(y) == 3 and y[0] == "field" and y[2] == "payload_len") and has(x, lambda y: is_call(y, "Vec::len"))
+            if is_call(x, "usize::saturating_sub"):
+                return mentions
+            if isinstance(x, tuple) and x[:1] == ("binop",) and x[1].startswith("Sub") and mentions:
+                # a plain subtraction must be guarded by received < total on this case
+                for t_, l_ in (cs or []):
+                    a_, pol = flow.bool_atom(t_, l_)
+                    if isinstance(a_, tuple) and len(a_) == 4 and a_[0] == "binop" and pol is not None:
+                        lt = (a_[1] in ("Lt",) and pol) or (a_[1] in ("Ge",) and not pol)
+                        gt = (a_[1] in ("Gt",) and pol) or (a_[1] in ("Le",) and not pol)
+                        if (lt and a_[2] == x[3] and a_[3] == x[2]) or (gt and a_[2] == x[2] and a_[3] == x[3]):
+                            return True
+                return False
+            return False
         oke = oke and bool(alts) and all(share(under(a_, alt), 5, 59, remaining) for alt in alts)
     chk.ob("R3 constants agree", "R3|receiver-payload-shares", oki and oke, where(hp), "a new message takes the first min(declared length, 57) bytes of packet[7..]: %s ; a continuation appends the first min(remaining, 59) bytes of packet[5..]: %s" % (oki, oke))
 
@@ -344,12 +374,22 @@ def run(chk):
     acc = [o for o in rows if o.variant[:1] == ("Ok",)]
     rej = [o for o in rows if o.variant[:1] == ("Err",)]
     want = frozenset({("field", ("param", 2), "seq"), ("field", ("param", 1), "sequence")})
-    ok = len(acc) == 1 and any(flow.eq_test(t, l) == (want, True) for t, l, f, w in acc[0].conds)
-    if ok:
-        w = find(acc[0].value, lambda y: isinstance(y, tuple) and len(y) == 3 and y[0] == "with")
-        ups = dict((k, v) for k, v in w[2]) if w else {}
-        inc = ups.get(("sequence",))
-        ok = inc is not None and has(inc, lambda y: isinstance(y, tuple) and y and y[0] == "binop" and y[1].startswith("Add") and ("const", 1) in y[2:4] and ("field", ("param", 1), "sequence") in y[2:4]) and set(ups) == {("sequence",), ("payload",)}
+    ok = len(acc) >= 1
+    for arow in acc:
+        # every accepting row: the packet's number equals the counter, and the row changes exactly the counter (+1) and the
+        # payload
+        rok = any(flow.eq_test(t, l) == (want, True) for t, l, f, w in arow.conds)
+        if rok:
+            w = find(arow.value, lambda y: isinstance(y, tuple) and len(y) == 3 and y[0] == "with")
+            if w is None:
+                # the returned value does not mention the updated receiver: read what `*self` holds where the row returns
+                Te_ = flow.Terms(p, ext)
+                w = normal.under(N.norm(Te_.place(1, (), arow.site[1], "t")), [(0, l, t) for t, l, f, w_ in arow.conds])
+                w = w if isinstance(w, tuple) and len(w) == 3 and w[0] == "with" else None
+            ups = dict((k, v) for k, v in w[2]) if w else {}
+            inc = ups.get(("sequence",))
+            rok = inc is not None and has(inc, lambda y: isinstance(y, tuple) and y and y[0] == "binop" and y[1].startswith("Add") and ("const", 1) in y[2:4] and ("field", ("param", 1), "sequence") in y[2:4]) and set(ups) == {("sequence",), ("payload",)}
+        ok = ok and rok
     chk.ob("R4 sequence discipline", "R4|receiver-accepts-only-expected-number", ok, where(ext), "accept row: %s" % ([flow.term_str(acc[0].value)[:200]] if acc else "none"))
     # rejects leave self untouched: no write to self on reject paths
     rej_clean = all(not has(o.value, lambda y: isinstance(y, tuple) and len(y) == 3 and y[0] == "with") for o in rej) and len(rej) >= 2
